@@ -14,6 +14,7 @@ CONSTANTS Dev,          \* deviations the handlers may take
           Plan,         \* which plan of servers / queries (string)
           Kinds,        \* kinds of datagrams the environment builds from a request it saw
           MaxFlips,     \* how often the environment changes reachability / socket() failure
+          MaxReplies,   \* how many distinct datagrams the environment creates in one behaviour
           AllowCancel, AllowDestroy, PortReuse
 
 VARIABLES st, flips
@@ -68,7 +69,8 @@ DoRecv == /\ st.up
 Targets(r) == IF PortReuse
               THEN {r.u} \cup UNION {{st.sk[key][s].u : s \in 1..Len(st.sk[key])} : key \in Keys(st)}
               ELSE {r.u}
-DoReply == /\ \E r \in st.netq, kind \in Kinds : \E u \in Targets(r) :
+DoReply == /\ Cardinality(st.netr) < MaxReplies
+           /\ \E r \in st.netq, kind \in Kinds : \E u \in Targets(r) :
                 LET rep == MkReply(st, r, kind, 0, u) IN
                 /\ rep \notin st.netr
                 /\ st' = [st EXCEPT !.netr = @ \cup {rep}]
@@ -88,7 +90,7 @@ DoDestroy == /\ AllowDestroy /\ st.up
 Next == DoSubmit \/ DoStart \/ DoFire \/ DoRecv \/ DoReply \/ DoEnv \/ DoCancel \/ DoDestroy
 
 Spec == Init /\ [][Next]_vars
-FairSpec == Spec /\ WF_vars(DoStart) /\ WF_vars(DoFire) /\ WF_vars(DoSubmit)
+FairSpec == Spec /\ WF_vars(DoStart) /\ WF_vars(DoFire)
 
 (* ---- invariants ---- *)
 ICompleteOnce == PCompleteOnce(st)
@@ -102,13 +104,14 @@ IFailover == PFailover(st)
 IQuiescent == PQuiescent(st)
 IDestroyed == PDestroyed(st)
 IMemSafe == PMemSafe(st)
+INas == PNas(st)
 (* the sum of the armed retransmission times of one server visit stays within MRD (zero jitter) *)
 IDuration == \A q \in Active(st) : LET Q == st.qs[q] IN
                 (Q.s # None /\ st.srv[Q.k].mrd # 0 /\ st.srv[Q.k].irt <= st.srv[Q.k].mrd /\ JitClasses = {"zero"})
                    => Q.rd + Q.rt <= st.srv[Q.k].mrd
 
 (* ---- liveness: every submitted query completes ---- *)
-Termination == <>[](Cardinality(DOMAIN st.qs) = NQ /\ Pending(st) = {})
+Termination == <>[](Pending(st) = {})
 
 (* reachability witnesses (vacuity): each must be VIOLATED, i.e. the situation is reachable *)
 WReplyOk   == ~(\E q \in DOMAIN st.qs : st.qs[q].res = 0)
